@@ -26,12 +26,21 @@ func init() {
 			return Err("ERR WATCH inside MULTI is not allowed")
 		}
 		for _, k := range a[1:] {
-			s.Watch[wkey{s.DB, k}] = true
+			w := wkey{s.DB, k}
+			if !s.Watch[w] {
+				if s.WSnap == nil {
+					s.WSnap = map[wkey]string{}
+				}
+				s.WSnap[w] = m.keySnap(s.DB, k)
+			}
+			s.Watch[w] = true
 		}
 		return OK()
 	}).noMulti = true
 	reg("unwatch", 1, 1, func(m *Model, s *Session, a []string) Reply {
 		s.Watch = map[wkey]bool{}
+	s.WSnap = map[wkey]string{}
+		s.WSnap = map[wkey]string{}
 		s.WDirty = false
 		return OK()
 	})
@@ -101,6 +110,7 @@ func (s *Session) resetTx() {
 	s.Multi = false
 	s.Queue, s.QDB, s.Abort = nil, nil, false
 	s.Watch = map[wkey]bool{}
+	s.WSnap = map[wkey]string{}
 	s.WDirty = false
 }
 
